@@ -4,6 +4,7 @@ Swarm style: every run draws its own configuration - number of connections,
 receiver styles, workload mix, which fault kinds are enabled and how dense the
 cuts are.  The result is an explicit trace; execution never draws randomness.
 """
+import datetime
 import struct
 
 from sim import gen, wiremap
@@ -556,6 +557,51 @@ def gen_trace(rng, check, population, tier='quick'):
         maxlen = 2048 if tier == 'quick' else 140000
         for _ in range(r.randint(1, 3)):
             conns.append(gen_sweep_conn(r, g, cfg, maxlen))
+    elif population == 'huge_threads':
+        # thousands of frames with run-wide distinct channels, sizes, names
+        # and timestamps in 2-3 threads that start with the same few frames:
+        # bounded caches (1024-entry FIFOs and the like) fill, evict and wrap
+        # around several times after the threads have raced on their first
+        # entries
+        from sim import gen_b
+        from sim.values import to_desc
+        g.max_str = 10
+        nthreads = r.choice((2, 3))
+        per = r.randint(500, 900)
+        head = []
+        for _ in range(3):
+            cfg['marker'] += 1
+            head.append(string_heavy_frame(r, g, cfg['marker'])[0])
+        for t in range(nthreads):
+            frames = list(head)
+            for j in range(per):
+                cfg['marker'] += 1
+                m = cfg['marker']
+                d = string_heavy_frame(r, g, m)[0]
+                d['ch'] = m % 65536
+                if d['k'] == 'header' and r.random() < 0.8:
+                    d['props']['timestamp'] = to_desc(
+                        datetime.datetime.fromtimestamp(
+                            1700000000 + (m if r.random() < 0.8
+                                          else m - r.randint(1, 60)),
+                            tz=datetime.timezone.utc))
+                frames.append(d)
+            datas = [gen.encode_frame(d) for d in frames]
+            conns.append({'recv': r.choice('AB'), 'frames': frames,
+                          'cuts': pick_cuts(r, datas, 'sparse'),
+                          'lat': [1], 'stalls': [], 'closes': [],
+                          'faults': []})
+        est = nthreads * per * 350
+        d_ = r.randint(2, 8)
+        pts = sorted(r.randint(1, max(2, est)) for _ in range(d_))
+        return {'world': 'A', 'check': check, 'population': population,
+                'conns': conns, 'threaded': True,
+                'schedule': [[p_, r.randrange(8)] for p_ in pts],
+                'policy': 'pct:%d' % d_,
+                'novel': {'every': r.choice([1, 2]),
+                          'picks': [r.randrange(8) for _ in range(6)]},
+                'exit_picks': [r.randrange(8) for _ in range(4)],
+                'first': r.randrange(nthreads)}
     elif population == 'long_threads':
         # long histories in 2-3 threads under PCT-style schedules: one
         # thread is parked at a random line for a long stretch while the
